@@ -87,7 +87,7 @@ def resolveTol (a : Option Rat) (g : Rat) : Rat :=
 /-- `is_physical(atol_eq_const, atol_ineq_const)` with optional tolerances and the global setting `g`:
 each missing tolerance is the global one, independently of the other -/
 def physicalArgs (eq ineq : Rat → Bool) (ae ai : Option Rat) (g : Rat) : Bool :=
-  physical (eq (resolveTol ae g)) (ineq (resolveTol ai g))
+  is_physical (fun a => eq (resolveTol a g)) (fun a => ineq (resolveTol a g)) ae ai
 
 def statePhysical (rho : CMat) (eigs : List Rat) (atolEq atolIneq : Rat) : Option Bool := do
   let a ← stateTraceOne rho atolEq
@@ -134,7 +134,7 @@ def tpTrace (n : Nat) (t : List C) (hs : List Rat) (atol : Rat) : Option Bool :=
 
 /-- gate.is_tp -/
 def isTp (onh0 : Bool) (n : Nat) (t : List C) (hs : List Rat) (atol : Rat) : Option Bool :=
-  if onh0 then tpRow n hs atol else tpTrace n t hs atol
+  if is_tp_first_row_branch onh0 then tpRow n hs atol else tpTrace n t hs atol
 
 def gatePhysical (onh0 : Bool) (n : Nat) (t : List C) (hs : List Rat) (choi : CMat) (eigs : List Rat)
     (atolEq atolIneq : Rat) : Option Bool := do
@@ -164,7 +164,21 @@ def mpPhysical (onh0 : Bool) (n : Nat) (t : List C) (hss : List (List Rat)) (cho
 inductive Ctor | ok | notPhysical
 deriving DecidableEq, Repr
 
-def mk (required phys : Bool) : Ctor := if required && !phys then .notPhysical else .ok
+/-- constructor outcome from a GENERATED guard (`QGen.C01.*_ctor_raises`) -/
+def mkWith (raises : Bool → Bool → Bool) (required phys : Bool) : Ctor :=
+  if raises required phys then .notPhysical else .ok
+
+def mk (required phys : Bool) : Ctor := mkWith state_ctor_raises required phys
+def mkPovm (required phys : Bool) : Ctor := mkWith povm_ctor_raises required phys
+def mkGate (required phys : Bool) : Ctor := mkWith gate_ctor_raises required phys
+def mkMProcess (required phys : Bool) : Ctor := mkWith mprocess_ctor_raises required phys
+
+/-! ## the basis flag that selects the branch of gate.is_tp (generated aggregation) -/
+
+/-- `CompositeSystem.is_orthonormal_hermitian_0thprop_identity` from the four basis verdicts
+(is_normal, is_orthogonal, is_hermitian, is_0thpropI) of every subsystem -/
+def onh0Flag (subs : List (Bool × Bool × Bool × Bool)) : Bool :=
+  composite_flag (subs.map fun s => elemental_flag s.1 s.2.1 s.2.2.1 s.2.2.2)
 
 /-! ## origin / zero objects (`_generate_origin_obj`, `_generate_zero_obj`), `n = d²` -/
 
@@ -238,6 +252,20 @@ def handle (args : List String) : Option String :=
       let eq := fun (t : Rat) => if t = g then eg = 1 else eG = 1
       let ineq := fun (t : Rat) => if t = g then ig = 1 else iG = 1
       some (bit (physicalArgs eq ineq ae ai g))
+  | ["mkt", ty, req, phys] => do
+      let req ← parseNat? req; let phys ← parseNat? phys
+      let r ← match ty with
+        | "state" => some (mk (req = 1) (phys = 1)) | "povm" => some (mkPovm (req = 1) (phys = 1))
+        | "gate" => some (mkGate (req = 1) (phys = 1)) | "mprocess" => some (mkMProcess (req = 1) (phys = 1))
+        | _ => none
+      some (match r with | .ok => "ok" | .notPhysical => "notPhysical")
+  | ["onh0", subs] => do
+      -- one group of four bits per subsystem: is_normal, is_orthogonal, is_hermitian, is_0thpropI
+      let gs ← (subs.splitOn ",").mapM fun g =>
+        match g.toList with
+        | [a, b, c, d] => some (a = '1', b = '1', c = '1', d = '1')
+        | _ => none
+      some s!"{bit (onh0Flag gs)} {"".intercalate (gs.map fun s => bit (elemental_flag s.1 s.2.1 s.2.2.1 s.2.2.2))}"
   | ["mk", req, phys] => do
       let req ← parseNat? req; let phys ← parseNat? phys
       some (match mk (req = 1) (phys = 1) with | .ok => "ok" | .notPhysical => "notPhysical")
